@@ -259,12 +259,16 @@ func extractTermsAux(ctx *Context, x interface{}, terms StringSet, depth int) {
 func (s *IndexedState) Add(ctx *Context, id string, x Map) (string, error) {
 	Log(DEBUG, ctx, "IndexedState.Add", "state", s.Name, "factx", x, "id", id)
 	s.cachedRules.drop(id)
+	// The memory update and the storage write are one critical
+	// section (as in Rem): otherwise two overlapping writes to
+	// one id could reach memory in one order and storage in the
+	// other.
 	s.slock(ctx, false)
+	defer s.sunlock(ctx, false)
 	id, err := s.add(ctx, id, x)
 	// Store what was prepared (with the absolute 'expires'), not
 	// the caller's map (which may have a relative 'ttl').
 	fact := s.IdToFact[id]
-	s.sunlock(ctx, false)
 
 	if nil != err {
 		return "", err
